@@ -7,6 +7,7 @@ package c20
 import (
 	"fmt"
 	"sync"
+	"sync/atomic"
 
 	"github.com/octohelm/gengo/pkg/inflector"
 	"verif/mc/core"
@@ -75,7 +76,78 @@ func coldStart(args []string) int {
 	return 0
 }
 
+// manyInputs: 8 feeders with 3000 distinct names each and 4 goroutines that keep asking for a few fixed inputs.
+func manyInputs(args []string) int {
+	words := []string{"person", "box", "ox", "quiz", "sheep", "status"}
+	fixed := map[string][2]string{}
+	for _, w := range words {
+		in := "fixed " + w
+		fixed[in] = [2]string{inflector.Pluralize(in), inflector.Singularize(in)}
+	}
+	var bad atomic.Int64
+	report := func(format string, a ...any) {
+		if bad.Add(1) < 5 {
+			fmt.Printf(format+"\n", a...)
+		}
+	}
+	guard := func(f func()) {
+		defer func() {
+			if x := recover(); x != nil {
+				report("panic under many distinct inputs: %v", x)
+			}
+		}()
+		f()
+	}
+	var wg sync.WaitGroup
+	stop := make(chan struct{})
+	for g := 0; g < 4; g++ {
+		wg.Add(1)
+		go func() {
+			defer wg.Done()
+			for {
+				select {
+				case <-stop:
+					return
+				default:
+				}
+				for in, want := range fixed {
+					guard(func() {
+						if p, s := inflector.Pluralize(in), inflector.Singularize(in); p != want[0] || s != want[1] {
+							report("answer changed while other callers feed distinct inputs: Pluralize(%q)=%q Singularize=%q, at first %q", in, p, s, want)
+						}
+					})
+				}
+			}
+		}()
+	}
+	var feeders sync.WaitGroup
+	for g := 0; g < 8; g++ {
+		feeders.Add(1)
+		go func(g int) {
+			defer feeders.Done()
+			for n := 0; n < 3000; n++ {
+				w := words[(g+n)%len(words)]
+				pre := fmt.Sprintf("g%d n%d ", g, n)
+				guard(func() {
+					wantP, wantS := fixed["fixed "+w][0][6:], fixed["fixed "+w][1][6:]
+					if p, s := inflector.Pluralize(pre+w), inflector.Singularize(pre+w); p != pre+wantP || s != pre+wantS {
+						report("Pluralize(%q)=%q Singularize=%q, the word alone gives %q / %q", pre+w, p, s, wantP, wantS)
+					}
+				})
+			}
+		}(g)
+	}
+	feeders.Wait()
+	close(stop)
+	wg.Wait()
+	if bad.Load() > 0 {
+		return 1
+	}
+	return 0
+}
+
 func init() {
+	core.RegisterWorker("c20many", manyInputs)
 	core.RegisterWorker("c20cold", coldStart)
 	core.RegisterWorker("c20race", func(args []string) int {
 		inputs := []string{"person", "Person", "old person", "box", "quiz", "people", "sheep", "status"}
